@@ -394,6 +394,22 @@ NoCollateralStep(s, t) == \A o \in Ords : StaysPutS(s, o) => (t.api.pods[o].pres
 NoCollateralDelete ==
   [][ last'.act = "Reconcile" => NoCollateralStep(Here, [api |-> api', cache |-> cache']) ]_vars
 
+\* C07 over histories.  (a) a reconcile takes at most one healthy, desired, correctly cached pod away (that can only be
+\* an update delete); (b) the recorded current revision advances only in a reconcile that saw every pod at the update
+\* revision, Running and Ready - otherwise "built from the current revision" would lose its meaning below the partition
+HealthyPodS(p) == p.present /\ ~p.term /\ p.phase = "Running" /\ p.ready
+TakenAwayS(s, t) == {o \in Ords : /\ HealthyPodS(s.api.pods[o]) /\ s.cache.pods[o] = s.api.pods[o]
+                                  /\ o \in DesiredOf(s) /\ o \in Desired(s.cache.set.replicas, s.cache.set.slots)
+                                  /\ (~t.api.pods[o].present \/ t.api.pods[o].term \/ t.api.pods[o].uid # s.api.pods[o].uid)}
+OneDownStep(s, t) == Cardinality(TakenAwayS(s, t)) <= 1
+CurAdvanceStep(s, t) ==
+  LET old == s.cache.set.status.curRev new == t.api.set.status IN
+  (t.api.set.status # s.api.set.status /\ new.curRev # old /\ \E k \in 1..Len(s.api.revs) : s.api.revs[k].name = old) =>
+     /\ new.curRev = new.updRev
+     /\ \A o \in Ords : s.cache.pods[o].present => (HealthyPodS(s.cache.pods[o]) /\ s.cache.pods[o].rev = new.updRev)
+RollsOneAtATime ==
+  [][ last'.act = "Reconcile" => (OneDownStep(Here, [api |-> api', cache |-> cache']) /\ CurAdvanceStep(Here, [api |-> api', cache |-> cache'])) ]_vars
+
 \* C02: convergence, under the premise that the user stops, faults stop, caches catch up and the kubelet makes progress
 Fairness == /\ WF_vars(Setup) /\ \A o \in Ords : WF_vars(Scramble(o))
             /\ WF_vars(Reconcile(<<>>)) /\ WF_vars(SyncSetCache) /\ WF_vars(SyncPodCache) /\ WF_vars(SyncPvcCache) /\ WF_vars(Unpause)
